@@ -98,13 +98,21 @@ class Driver:
             cmd, cwd=LEAN_DIR, stdin=subprocess.PIPE, stdout=subprocess.PIPE, text=True, bufsize=1
         )
         self.calls = 0
+        self.slow = []
 
     def call(self, cmd, payload):
         line = cmd + " " + json.dumps(payload, separators=(",", ":"))
+        t0 = time.time()
         self.proc.stdin.write(line + "\n")
         self.proc.stdin.flush()
         out = self.proc.stdout.readline()
         self.calls += 1
+        if time.time() - t0 > 20.0:
+            self.slow.append((cmd, round(time.time() - t0, 1), len(line)))
+            sys.stderr.write("slow model call: %s %.0fs, request of %d bytes\n" % (cmd, time.time() - t0, len(line)))
+            if os.environ.get("VERIF_KEEP_SLOW"):
+                with open(os.path.join(os.environ["VERIF_KEEP_SLOW"], "slow-%s-%d.txt" % (cmd, self.calls)), "w") as fh:
+                    fh.write(line + "\n")
         if not out:
             raise DriverError("driver died on %s" % cmd)
         if out.startswith("ok "):
@@ -298,6 +306,9 @@ def formula_tie(groups, timeout=600):
     return problems
 
 
+MISSING_DECLS = []
+
+
 def modules_of(theorems):
     """the library modules that declare the given property theorems, with everything of the library they import"""
     decl = {}
@@ -306,8 +317,20 @@ def modules_of(theorems):
         if f.endswith(".lean"):
             with open(os.path.join(props, f)) as fh:
                 src = strip_comments(fh.read())
-            for m in re.finditer(r"^theorem\s+([\w'.]+)", src, flags=re.M):
-                decl.setdefault("Spowtd." + m.group(1), "SpowtdModel.Props." + f[:-5])
+            ns = []
+            for line in src.split("\n"):
+                m = re.match(r"namespace\s+([\w'.]+)", line)
+                if m:
+                    ns.append(m.group(1))
+                    continue
+                m = re.match(r"end\s+([\w'.]+)\s*$", line)
+                if m and ns and ns[-1] == m.group(1):
+                    ns.pop()
+                    continue
+                m = re.match(r"(?:protected\s+|private\s+)?theorem\s+([\w'.]+)", line)
+                if m:
+                    decl.setdefault(".".join(ns + [m.group(1)]), "SpowtdModel.Props." + f[:-5])
+    MISSING_DECLS[:] = [t for t in theorems if t not in decl]
     todo = sorted({decl[t] for t in theorems if t in decl})
     seen = []
     while todo:
@@ -329,8 +352,8 @@ def leanchecker(theorems, timeout=3000):
     """thorough tier: replay the compiled declarations of the property's modules through Lean's independent
     re-checker (`leanchecker`, a separate kernel pass over the .olean files)"""
     mods = modules_of(theorems)
-    if not mods:
-        return ["leanchecker: no module declares the property's theorems"]
+    if not mods or MISSING_DECLS:
+        return ["leanchecker: the module declaring %s was not found among lean/SpowtdModel/Props/*.lean" % ", ".join(MISSING_DECLS[:4] or ["the property's theorems"])]
     try:
         p = subprocess.run(["lake", "env", "leanchecker"] + mods, cwd=LEAN_DIR, capture_output=True, text=True, timeout=timeout)
     except FileNotFoundError:
